@@ -180,6 +180,25 @@ CLAIMED = {
              "modelled), nearest.on_surface as surface membership test. Partial: loop assembly and capping are "
              "checked by correspondence only.",
         technique="Lean 4 proof (sign-pattern table by kernel decision + ordered-field lemmas) + differential correspondence"),
+    "C12": dict(
+        category="proof", design_ref="DESIGN.md 5 C12",
+        text="Lean 4 theorems over exact rationals (every float64 input is one) about an executable exhaustive "
+             "model of ray_triangle_id (plane hit, Cramer barycentric inclusion, forward filter), first-hit "
+             "selection, triangles.closest_point (Ericson's seven-region cascade) and the all-triangles minimum: "
+             "a reported hit lies on the ray ahead of the origin and on the reported triangle; a triangle "
+             "crossed ahead of the origin is never missed; the hit list contains exactly those; the first hit "
+             "is a hit and none is nearer; the closest-point cascade returns a point of the triangle and no "
+             "point of the triangle is closer; the mesh query is the minimum over all triangles. Tied to the "
+             "code by running the model on the same inputs: batches of rays (axis aligned, oblique, origins "
+             "inside, just past a face, converging on one point, duplicated) against both engines (r-tree and "
+             "embree) for intersects_id / location / first / any, contains_points, nearest.on_surface, "
+             "signed_distance; every query the model finds in general position must agree with it exactly "
+             "(triangle sets, first hit, locations, containment parity, distance, reported triangle).",
+        note="Trusted: Lean kernel (+propext/Classical.choice/Quot.sound); inside = odd crossing count along a "
+             "general-position ray (Jordan); rtree / embree exercised not modelled; float -> rational "
+             "conversion. Queries within 1e-3 (barycentric / relative) of an edge, vertex, the origin or the "
+             "surface are out of scope as the property says.",
+        technique="Lean 4 proof (exhaustive rational model proved sound/complete/optimal) + model-as-oracle differential run"),
     "C17": dict(
         category="proof", design_ref="DESIGN.md 5 C17",
         text="Lean 4 theorems over a heap of mutable cells: a sound disjointness checker; the frame theorem (if the "
